@@ -14,7 +14,7 @@
 From V.lib Require Import Bits Mem Res.
 From V.model Require Import MapperTypes Cart System.
 From V.spec Require Import AddrSpec.
-From V.proofs Require Import MapperFrame MapperFootprint.
+From V.proofs Require Import MapperFrame MapperFootprint MapperRegs.
 
 (* For every machine state, every 16-bit address a, every value v (a byte or not) and every other 16-bit address
    b outside the effect set of a: if the write succeeds, the byte read at b (or the way reading b fails) is what
@@ -42,15 +42,12 @@ Print Assumptions C07_unmapped_write_ignored.
 
 (* non-vacuity: a ROM-only machine from power-on; writing 5 to C000 is seen at C000 and E000 and nowhere in
    C001 / FF80 / FF40, which are outside the effect set *)
-Definition c07_image : image :=
-  mkImage 32768 (fun a => if a =? 327 then 0 else if a =? 328 then 0 else if a =? 329 then 0 else a mod 251).
-
 Example C07_frame_applies :
-  exists c s s', sys_new c07_image true false = Ok (c, s) /\ sys_write s 0xC000 5 = Ok s' /\
+  exists c s s', sys_new demo_image true false = Ok (c, s) /\ sys_write s 0xC000 5 = Ok s' /\
     footprint s 0xC000 0xC001 = false /\ footprint s 0xC000 0xFF40 = false /\ footprint s 0xC000 0xE000 = true /\
     peek s' 0xC000 = Ok 5 /\ peek s' 0xE000 = Ok 5 /\ peek s 0xE000 = Ok 0 /\ peek s' 0xFF40 = Ok 0x91.
 Proof.
-  destruct (sys_new c07_image true false) as [[c s]| |] eqn:E; [|vm_compute in E; discriminate E ..].
+  destruct (sys_new demo_image true false) as [[c s]| |] eqn:E; [|vm_compute in E; discriminate E ..].
   exists c, s.
   assert (X : exists s', sys_write s 0xC000 5 = Ok s').
   { injection E as _ <-. eexists. vm_compute. reflexivity. }
